@@ -95,11 +95,11 @@ def _ab(ctx, jf):
 
 _PAD = "				for offset in range(n_right_cols):\n					result_append_cols[base + offset](None)"
 MUTANTS = [
-    dict(id="full-join-empty-guard-or", module="table", old="		if left_nrows == 0 and right_nrows == 0:\n			return Table(())",
-         new="		if left_nrows == 0 or right_nrows == 0:\n			return Table(())", rules=["a.no-early-result"],
+    dict(id="full-join-empty-guard-or", module="table", old="		# 8. Wrap into Vectors with names preserved\n",
+         new="		if left_nrows == 0 or right_nrows == 0:\n			return Table(())\n		# 8. Wrap into Vectors with names preserved\n", rules=["a.no-early-result"],
          desc="a full join with one empty side loses all rows of the other"),
-    dict(id="left-join-empty-guard-on-right", module="table", old="		if left_nrows == 0:\n			return Table(())",
-         new="		if right_nrows == 0:\n			return Table(())", rules=["a.no-early-result"]),
+    dict(id="left-join-empty-guard-on-right", module="table", old="		# Wrap result_data into Vectors, preserving column names\n",
+         new="		if right_nrows == 0:\n			return Table(())\n		# Wrap result_data into Vectors, preserving column names\n", rules=["a.no-early-result"]),
     dict(id="left-join-continue-on-unmatched", module="table",
          old="			else:\n				# No match: left row with None for all right columns\n				for c_idx, col in enumerate(left_cols):",
          new="			else:\n				if not right_index:\n					continue\n				# No match: left row with None for all right columns\n				for c_idx, col in enumerate(left_cols):",
